@@ -332,6 +332,11 @@ func sliceBeyondUnknownLength(h []byte) []byte {
 	return h[:8]
 }
 
+// LINT-CONSTSLICE to-array: a list of unknown length turned into an array.
+func listIntoArray(h []byte) [4]byte {
+	return [4]byte(h)
+}
+
 // LINT-OPTEMPTY: the defensive copy makes a list that is never nil, so the optional reference is always encoded.
 type optRef struct {
 	Org     string `asn1:"optional"`
